@@ -183,6 +183,7 @@ func checkC03(c *Ctx) {
 	}
 	c03NewEventKey(c, p)
 	c03AltPrefix(c, p)
+	recogniserConflicts(c, p, db, "C03-R3")
 	checkChunkOwnership(c, p, "C03-R7")
 	c.extra["key_tables"] = map[string]interface{}{"entries": len(kt.tables), "registrar_calls_folded_max": kt.regSites, "capability_fields_read": len(kt.fieldsRead)}
 }
